@@ -54,3 +54,9 @@ add("C13",
     "~400 (quick) to ~10^4 (thorough) well-typed bases and ~3 violations each over all typed positions and operator nestings to depth 4; finds dropped or mis-applied typing rules, crashes on ill-typed input and wrongly rejected well-typed input on the explored template; the catalogue is the one in DESIGN §4 C13.",
     "Trusts: my reading of the operator signatures in language-reference.md; small magnitudes so no other rule interferes; `<` on same-enum operands and same-enum enum values are treated as allowed (pinned by upstream unit tests).",
     "DESIGN.md §4 C13")
+
+add("C15",
+    "property-based testing over random reference digraphs realised as struct fields, enum values and import files, against an independent SCC (Kosaraju) oracle for the cycle verdict and cycle sets, and a topological/stability oracle for fields_in_dependency_order; per-case time limit for termination",
+    "~10^3 (quick) to ~2*10^4 (thorough) graphs of 2-9 nodes with every edge carrier (start, size, array length, condition, value, type argument); checks cycle error iff cycle, reported name sets == SCCs, order is a stable topological permutation, and termination.",
+    "Trusts: my SCC implementation; the intended graph equals the compiler's view of references (edges are only the names I print); 60 s limit as termination judge.",
+    "DESIGN.md §4 C15")
